@@ -107,6 +107,17 @@ def check(case):
     fs2.genuines = newg
     fs2.frauds = newg[::-1]
     require(fs2.pos is newg and _same(fs2.neg, newg[::-1]) and fs2.genuines is newg, "fraud:setter", ctx)
+    # ... and the queries of the object follow the newly assigned arrays
+    fs2.frauds = np.sort(newg[::-1])
+    ref2 = Scores(newg, np.sort(newg[::-1]), score_class={"genuine": "pos", "fraud": "neg"}[case["sc"]],
+                  equal_class="pos")
+    tq = np.asarray([0.25, 0.5, 0.75, 1.0])
+    require(_same(fs2.cm(tq).matrix, ref2.cm(tq).matrix), "fraud:setter-queries", f"{ctx}: cm after assignment")
+    for m in ("fnr", "fpr", "tpr", "tnr"):
+        require(_same(getattr(fs2, "threshold_at_" + m)(np.asarray([0.3, 0.5])),
+                      getattr(ref2, "threshold_at_" + m)(np.asarray([0.3, 0.5]))), "fraud:setter-queries",
+                f"{ctx}: threshold_at_{m} after assignment through the setters")
+    require(_same(np.asarray(fs2.eer()), np.asarray(ref2.eer())), "fraud:setter-queries", f"{ctx}: eer")
     edge = any(float(x) in (0.0, 1.0) for x in case["g"] + case["f"])
     return dict(nontrivial=bool(n and m_ and edge), labels=["accepted", f"dtype:{case['dtype']}"])
 
